@@ -48,6 +48,18 @@ def _remap(j, lmap, bmap):
     return out
 
 
+def _subst(j, tmap):
+    """Replace generic type parameters {"k": "param", "n": X} (anywhere: local types, callee generic
+    arguments, unevaluated constants) by the caller's type arguments."""
+    if isinstance(j, list):
+        return [_subst(x, tmap) for x in j]
+    if not isinstance(j, dict):
+        return j
+    if j.get("k") == "param" and j.get("n") in tmap and len(j) <= 3:
+        return copy.deepcopy(tmap[j["n"]])
+    return {k: _subst(v, tmap) for k, v in j.items()}
+
+
 def _callee_name(t):
     f = t.get("f") or {}
     res = f.get("res") or {}
@@ -103,9 +115,16 @@ def inline_crate(bodies):
             cn = _callee_name(t)
             if cn is None or cn not in pristine or cn in stack or depth >= MAX_DEPTH:
                 continue
-            if (t.get("f") or {}).get("a"):
-                continue                    # generic instantiation: types inside would need substitution
             h = pristine[cn]
+            targs = (t.get("f") or {}).get("a") or []
+            tmap = None
+            if targs:
+                # generic helper: instantiate its type parameters positionally (driver emits the names in
+                # substitution order, lifetimes skipped on both sides)
+                gens = h.get("generics")
+                if gens is None or len(gens) != len(targs):
+                    continue
+                tmap = dict(zip(gens, targs))
             argc = h.get("arg_count", 0)
             if len(t["args"]) != argc:
                 continue
@@ -118,8 +137,13 @@ def inline_crate(bodies):
             lmap = lambda l, o=loff: l + o
             bmap = lambda b_, o=boff: b_ + o
             dest, cont = t["dest"], t["to"]
+            if tmap:
+                for nl in caller["locals"][loff:]:
+                    nl["ty"] = _subst(nl.get("ty"), tmap)
             for k, blk in enumerate(h["blocks"]):
                 nb = _remap(blk, lmap, bmap)
+                if tmap:
+                    nb = _subst(nb, tmap)
                 if nb["term"]["t"] == "return":
                     nb["stmts"].append({"s": "assign", "p": copy.deepcopy(dest),
                                         "rv": {"r": "use", "o": {"m": {"l": loff, "p": []}}},
